@@ -8,11 +8,18 @@ import stages
 def workloads(rng, code):
     a = shapes.gen_ctor(rng, code, "small", True, 2, 3)
     b = shapes.gen_ctor(rng, code, "small", True, 2, 3)
-    return [
+    out = [
         ("w w f", [("w", a), ("w", b), ("f",)]),
         ("w f w", [("w", a), ("f",), ("w", b)]),
         ("f w", [("f",), ("w", a)]),
     ]
+    if shapes.dim_of(code) >= 3:
+        # a shape whose measures (and heights) are all NaN — its finalize commits empty M / Z ranges — then shapes whose
+        # ranges do not contain 0
+        n = shapes.gen_ctor(rng, code, "nanm", True, 2, 3)
+        p, q = shapes.gen_ctor(rng, code, "posm", True, 2, 3), shapes.gen_ctor(rng, code, "posm", True, 2, 3)
+        out.append(("n f p q", [("w", n), ("f",), ("w", p), ("w", q)]))
+    return out
 
 
 def run(rep, tier, rng):
@@ -83,7 +90,7 @@ def run(rep, tier, rng):
             total = base["shp"]["ops"] if dest == 1 else base["shx"]["ops"]
             # operations issued before the heal call: the base run's trailing finalize (seek, 13 header chunks,
             # seek end, flush = 16 operations) only has something to do when the workload ends with a write
-            total -= 16 if name.endswith("w") else 0
+            total -= 16 if name[-1] in "wq" else 0
             if kind == "retry":
                 if k < total:
                     if not errs:
